@@ -941,7 +941,8 @@ namespace
     };
     struct SetSwap
     {
-        using X = SW; using Y = DB;
+        // every alternative moves without throwing (so variant::swap could believe it cannot throw) - only SW's own swap can
+        using X = SW; using Y = Reg<6, true>;
         static constexpr bool tracked = true;
         static X mkx(uint64_t id) { return X(id); }
         static uint64_t idx(const X& x) { return x.id; }
@@ -1354,5 +1355,5 @@ namespace
     RegisterCfg reg_c("int_double_TT_trivially_destructible", gen, exec_small<SmallWorld<SetTrivial>>, 1, false);
     RegisterCfg reg_d("int_NA_DB_converting_assignment", gen_conv, exec_small<SmallWorld<SetConverting>>, 1, false);
     RegisterCfg reg_e("int_GR_DB_alternative_constructible_from_anything", gen, exec_small<SmallWorld<SetGreedy>>, 1, false);
-    RegisterCfg reg_f("int_SW_DB_alternative_with_throwing_swap", gen, exec_small<SmallWorld<SetSwap>>, 1, false);
+    RegisterCfg reg_f("int_SW_DBN_alternative_with_throwing_swap", gen, exec_small<SmallWorld<SetSwap>>, 1, false);
 }
